@@ -117,6 +117,110 @@ example : glob (lit "i-5") (lit "i-[0-9]") = some true ∧ glob (lit "i-[0-9]") 
     glob (lit "a[b") (lit "a[b") = some true ∧ glob (lit "x") (lit "[z-a]") = none := by decide
 example : (lit "i-").all isGlobPlain = true ∧ (lit "0123").all isClassPlain = true := by decide
 
+/-! ### set-valued relations (`intersect`, `difference`) are about membership (round 3)
+
+The relation `difference` names is Custodian's `bool(set(r).difference(v))`: it asks whether the resource's list has
+an entry the policy's list lacks.  Nothing else about the two lists matters — not their lengths, not repeated
+entries, not the order.  `difference_longer_nodup` is the exact sub-domain on which a length comparison can stand in
+for the set difference (seeded change C19-m9 used it without the `Nodup` hypothesis). -/
+
+/-- the `difference` / `intersect` entries of the regenerated table denote the relation over the resource's list (left)
+and the policy's list (right) -/
+theorem set_clause_decision (p : String × String) (hp : p ∈ XlateTables.atomicOpMap) (o : Op)
+    (hn : (p.1 = "difference" ∧ o = .difference) ∨ (p.1 = "intersect" ∧ o = .intersect)) (xs ys : List Atom) :
+    denoteTemplate p.2.toList (.list xs) (.list ys) = Spec.rel o (.list xs) (.list ys) := by
+  rcases hn with ⟨h1, h2⟩ | ⟨h1, h2⟩ <;> subst h2 <;> exact op_table_correct p hp _ (by rw [h1]; decide) _ _
+
+/-- the raw set difference test: false exactly when every member of the left list is a member of the right one -/
+theorem diff_any_false (xs ys : List Atom) :
+    (xs.any (fun a => !ys.contains a)) = false ↔ ∀ a ∈ xs, a ∈ ys := by
+  simp [List.any_eq_false]
+
+theorem inter_any_true (xs ys : List Atom) :
+    (xs.any (ys.contains ·)) = true ↔ ∃ a ∈ xs, a ∈ ys := by
+  simp [List.any_eq_true]
+
+theorem setRel_some {f : List Atom → List Atom → Bool} {r v : Val} {b : Bool} (h : Spec.setRel f r v = some b) :
+    ∃ xs ys, r = .list xs ∧ v = .list ys ∧ b = f xs ys := by
+  cases r with
+  | atom a => simp [Spec.setRel] at h
+  | list xs =>
+    cases v with
+    | atom a => simp [Spec.setRel] at h
+    | list ys =>
+      refine ⟨xs, ys, rfl, rfl, ?_⟩
+      cases xs with
+      | nil => simp [Spec.setRel] at h; exact h.symm
+      | cons x xs' =>
+        cases ys with
+        | nil => simp [Spec.setRel] at h; exact h.symm
+        | cons y ys' =>
+          simp only [Spec.setRel] at h
+          split at h
+          · exact (Option.some.inj h).symm
+          · cases h
+
+/-- `difference` names MEMBERSHIP: whenever the relation has a meaning, the clause matches exactly when some
+entry of the resource's list is not an entry of the policy's list — repeats, order and lengths play no part. -/
+theorem difference_membership (xs ys : List Atom) (b : Bool)
+    (h : Spec.rel .difference (.list xs) (.list ys) = some b) : b = true ↔ ∃ a ∈ xs, a ∉ ys := by
+  simp only [Spec.rel] at h
+  obtain ⟨xs', ys', h1, h2, h3⟩ := setRel_some h
+  cases h1; cases h2; subst h3
+  simp [List.any_eq_true]
+
+theorem intersect_membership (xs ys : List Atom) (b : Bool)
+    (h : Spec.rel .intersect (.list xs) (.list ys) = some b) : b = true ↔ ∃ a ∈ xs, a ∈ ys := by
+  simp only [Spec.rel] at h
+  obtain ⟨xs', ys', h1, h2, h3⟩ := setRel_some h
+  cases h1; cases h2; subst h3
+  simp [List.any_eq_true]
+
+/-- two resource lists with the same members (one may repeat entries, be longer, be reordered) get the same decision -/
+theorem difference_same_members (xs xs' ys : List Atom) (b b' : Bool) (hm : ∀ a, a ∈ xs ↔ a ∈ xs')
+    (h : Spec.rel .difference (.list xs) (.list ys) = some b)
+    (h' : Spec.rel .difference (.list xs') (.list ys) = some b') : b = b' := by
+  have e := difference_membership xs ys b h
+  have e' := difference_membership xs' ys b' h'
+  have : (b = true) ↔ (b' = true) := by
+    rw [e, e']
+    constructor
+    · rintro ⟨a, ha, hn⟩; exact ⟨a, (hm a).1 ha, hn⟩
+    · rintro ⟨a, ha, hn⟩; exact ⟨a, (hm a).2 ha, hn⟩
+  cases b <;> cases b' <;> simp_all
+
+/-- pigeonhole, with the hypothesis it needs: a list WITHOUT repeated entries whose entries all occur in `ys` is no longer than `ys` -/
+theorem nodup_subset_length : ∀ (xs ys : List Atom), xs.Nodup → (∀ a ∈ xs, a ∈ ys) → xs.length ≤ ys.length
+  | [], _, _, _ => Nat.zero_le _
+  | x :: xs, ys, hn, hs => by
+    have hx : x ∈ ys := hs x (List.mem_cons_self ..)
+    have hn' := List.nodup_cons.1 hn
+    have ih := nodup_subset_length xs (ys.erase x) hn'.2 (fun a ha =>
+      (List.mem_erase_of_ne (fun (e : a = x) => hn'.1 (e ▸ ha))).2 (hs a (List.mem_cons_of_mem _ ha)))
+    have hl := List.length_erase_of_mem hx
+    have hp : 0 < ys.length := List.length_pos_of_mem hx
+    simp only [List.length_cons]
+    omega
+
+/-- the sub-domain on which "a longer left list must have an entry the right one lacks" is right: lists without repeats -/
+theorem difference_longer_nodup (xs ys : List Atom) (b : Bool) (hn : xs.Nodup) (hl : ys.length < xs.length)
+    (h : Spec.rel .difference (.list xs) (.list ys) = some b) : b = true := by
+  rw [difference_membership xs ys b h]
+  apply Classical.byContradiction
+  intro hc
+  have hs : ∀ a ∈ xs, a ∈ ys := fun a ha => Classical.byContradiction fun hna => hc ⟨a, ha, hna⟩
+  have := nodup_subset_length xs ys hn hs
+  omega
+
+/-- an empty resource list never matches -/
+theorem difference_empty (ys : List Atom) : Spec.rel .difference (.list []) (.list ys) = some false := by
+  simp [Spec.rel, Spec.setRel]
+
+/-- and outside that sub-domain it is wrong: a repeated entry makes the list longer without adding a member -/
+example : Spec.rel .difference (.list [.str (lit "a"), .str (lit "a")]) (.list [.str (lit "a")]) = some false ∧
+    Spec.rel .difference (.list [.str (lit "a"), .str (lit "b"), .str (lit "a")]) (.list [.str (lit "a"), .str (lit "b")]) = some false ∧
+    Spec.rel .difference (.list [.str (lit "a"), .str (lit "c")]) (.list [.str (lit "a")]) = some true := by decide
+
 /-- clauses without an op. Full statement: `∀ w r, Spec.word w r = some b → the emitted clause decides b`.
 Proved part: `not-null` and `empty` on every attribute value; `present` and `absent` on every value that is
 null or truthy. Missing: `present`/`absent` on an attribute that is there but falsy — the translator sends
